@@ -26,6 +26,15 @@ Proof.
 Qed.
 Print Assumptions C16_lookup_keys_may_be_unsized.
 
+(* no public method puts a named lifetime on a parameter other than `self` and the guards: a lookup
+   key (or an inserted key / value, or a closure) is never required to live as long as the result *)
+Theorem C16_lookup_keys_unconstrained : forall r, In r sigs -> g_key_lts r = [].
+Proof.
+  intros r Hr. pose proof lookup_keys_unconstrained_true as H. unfold lookup_keys_unconstrained in H.
+  rewrite forallb_forall in H. specialize (H r Hr). destruct (g_key_lts r); [reflexivity | discriminate H].
+Qed.
+Print Assumptions C16_lookup_keys_unconstrained.
+
 Theorem C16_table_not_trivial : 30 <= borrow_rows.
 Proof. exact borrow_rows_many. Qed.
 Print Assumptions C16_table_not_trivial.
@@ -35,10 +44,10 @@ Print Assumptions C16_table_not_trivial.
    would be accepted *)
 Theorem C16_split_pair_rejected :
   row_tied {| g_file := ""; g_ty := "HashMap"; g_trait := ""; g_name := "get_key_value"; g_line := 0%N;
-              g_self := "m"; g_guards := ["g"]; g_ret_lts := ["m"; "g"]; g_outlives := [("g", "m")]; g_q_sized := false;
+              g_self := "m"; g_guards := ["g"]; g_ret_lts := ["m"; "g"]; g_outlives := [("g", "m")]; g_q_sized := false; g_key_lts := [];
               g_ret := ""; g_borrow := true; g_static := false |} = false /\
   row_tied {| g_file := ""; g_ty := "HashMap"; g_trait := ""; g_name := "get_key"; g_line := 0%N;
-              g_self := "m"; g_guards := ["g"]; g_ret_lts := ["m"]; g_outlives := [("g", "m")]; g_q_sized := false;
+              g_self := "m"; g_guards := ["g"]; g_ret_lts := ["m"]; g_outlives := [("g", "m")]; g_q_sized := false; g_key_lts := [];
               g_ret := ""; g_borrow := true; g_static := false |} = true.
 Proof. exact split_pair_rejected. Qed.
 Print Assumptions C16_split_pair_rejected.
